@@ -371,12 +371,12 @@ static void run_invalid(void)
 
 /* ================================================================ C14 */
 #define NSLOT 4
-enum { A_CREATE_RS, A_CREATE_RS2, A_CREATE_XOR, A_CREATE_NULL, A_FAILED_CREATE, A_DESTROY_DEAD, A_DESTROY0, A_USE0 = A_DESTROY0 + NSLOT, A_MAX = A_USE0 + NSLOT };
+enum { A_CREATE_RS, A_CREATE_RS2, A_CREATE_XOR, A_CREATE_NULL, A_CREATE_RS0, A_FAILED_CREATE, A_DESTROY_DEAD, A_DESTROY0, A_USE0 = A_DESTROY0 + NSLOT, A_MAX = A_USE0 + NSLOT };
 static const char *act_name(int a)
 {
     static char b[24];
     switch (a) {
-    case A_CREATE_RS: return "create-rs(4,2)"; case A_CREATE_RS2: return "create-rs(3,3)"; case A_CREATE_XOR: return "create-xor(5,5,3)"; case A_CREATE_NULL: return "create-null";
+    case A_CREATE_RS: return "create-rs(4,2)"; case A_CREATE_RS2: return "create-rs(3,3)"; case A_CREATE_XOR: return "create-xor(5,5,3)"; case A_CREATE_NULL: return "create-null"; case A_CREATE_RS0: return "create-rs(3,0)";
     case A_FAILED_CREATE: return "failed-create"; case A_DESTROY_DEAD: return "destroy-dead";
     }
     if (a >= A_USE0) snprintf(b, sizeof b, "use(%d)", a - A_USE0); else snprintf(b, sizeof b, "destroy(%d)", a - A_DESTROY0);
@@ -415,11 +415,12 @@ static void hist_step(hist_t *h, int a, const char *hk)
     char what[200]; snprintf(what, sizeof what, "%s step %ld %s", hk, h->step, act_name(a));
     int before = registry_len();
     if (before != model_nlive(h)) mon_viol("C14", "registry-length", "%s: registry holds %d instances before the step, model %d", what, before, model_nlive(h));
-    if (a <= A_CREATE_NULL) {
+    if (a <= A_CREATE_RS0) {
         int sl = -1; for (int i = 0; i < NSLOT; i++) if (!h->s[i].live) { sl = i; break; }
         if (sl < 0) return;
-        static const cfg_t cf[4] = { { EC_BACKEND_LIBERASURECODE_RS_VAND, 4, 2, 2, 0, CHKSUM_CRC32 }, { EC_BACKEND_LIBERASURECODE_RS_VAND, 3, 3, 3, 0, CHKSUM_NONE },
-                                     { EC_BACKEND_FLAT_XOR_HD, 5, 5, 3, 0, CHKSUM_CRC32 }, { EC_BACKEND_NULL, 4, 2, 2, 0, CHKSUM_NONE } };
+        static const cfg_t cf[5] = { { EC_BACKEND_LIBERASURECODE_RS_VAND, 4, 2, 2, 0, CHKSUM_CRC32 }, { EC_BACKEND_LIBERASURECODE_RS_VAND, 3, 3, 3, 0, CHKSUM_NONE },
+                                     { EC_BACKEND_FLAT_XOR_HD, 5, 5, 3, 0, CHKSUM_CRC32 }, { EC_BACKEND_NULL, 4, 2, 2, 0, CHKSUM_NONE },
+                                     { EC_BACKEND_LIBERASURECODE_RS_VAND, 3, 0, 0, 0, CHKSUM_CRC32 } };    /* no parity at all: legal (m >= 0), shares the GF tables like any rs_vand instance */
         int rc = live_open(&h->s[sl].L, &cf[a], 100 + (uint64_t)a * 13 + (uint64_t)sl, MO.seed + (uint64_t)h->step);
         mon_count("evaluations", 1); mon_count("creates", 1);
         int d = h->s[sl].L.desc;
@@ -460,7 +461,7 @@ static void hist_step(hist_t *h, int a, const char *hk)
 
 static int act_enabled(hist_t *h, int a)
 {
-    if (a <= A_CREATE_NULL) return model_nlive(h) < NSLOT;
+    if (a <= A_CREATE_RS0) return model_nlive(h) < NSLOT;
     if (a == A_FAILED_CREATE || a == A_DESTROY_DEAD) return 1;
     if (a >= A_USE0) return h->s[a - A_USE0].live;
     return h->s[a - A_DESTROY0].live;
@@ -499,7 +500,7 @@ static void run_one_history(const int *acts, int len, int preset, const char *ki
     for (int i = 0; i < len; i++) {
         if (!act_enabled(&h, acts[i])) continue;
         hist_step(&h, acts[i], kind);
-        if (acts[i] <= A_CREATE_NULL) {
+        if (acts[i] <= A_CREATE_RS0) {
             ncreate++;
             if ((preset == 1 && ncreate == 2) || (preset == 4 && ncreate == 3)) next_backend_desc = INT_MAX - 1;
         }
@@ -522,7 +523,7 @@ static void dfs(int *acts, int depth, int maxd, hist_t *shadow)
     for (int a = 0; a < A_MAX; a++) {
         if (!act_enabled(shadow, a)) continue;
         hist_t save = *shadow;
-        if (a <= A_CREATE_NULL) { for (int i = 0; i < NSLOT; i++) if (!shadow->s[i].live) { shadow->s[i].live = 1; break; } }
+        if (a <= A_CREATE_RS0) { for (int i = 0; i < NSLOT; i++) if (!shadow->s[i].live) { shadow->s[i].live = 1; break; } }
         else if (a >= A_DESTROY0 && a < A_USE0) shadow->s[a - A_DESTROY0].live = 0;
         acts[depth] = a;
         dfs(acts, depth + 1, maxd, shadow);
@@ -882,15 +883,28 @@ static int oom_do(live_t *L, const oop_t *o, int *exact)
     return rc;
 }
 
-typedef struct { live_t *L; const oop_t *op; long nth; int rc0; const cfg_t *c; uint64_t len; live_t *L2; ledger_t base; int have_base; } oomarg_t;
+typedef struct { live_t *L; const oop_t *op; long nth; int rc0; const cfg_t *c; uint64_t len; live_t *L2; ledger_t base; int have_base; stripe_t *small; uint8_t *small_data; } oomarg_t;
 #define OOM_FIRED 1
 #define OOM_SUCCEEDED 2
 #define OOM_ERROR 4
+
+/* decode of a second, much smaller stripe of the same instance with the same erasure set (what the instance keeps between
+ * calls was sized by another stripe) */
+static void oom_small_decode(oomarg_t *a, const char *when)
+{
+    stripe_t *t = a->small; char *lst[64]; int cnt = 0;
+    for (int i = 0; i < t->n; i++) if (!((a->op->erased >> i) & 1)) lst[cnt++] = (char *)t->frag[i];
+    char *out = NULL; uint64_t ol = 0;
+    int rc = liberasurecode_decode(a->L->desc, lst, cnt, t->flen, a->op->force, &out, &ol);
+    if (rc != 0 || ol != t->len || memcmp(out, a->small_data, t->len)) mon_viol("C16", "oom-other-stripe-differs", "%s: decode of a smaller stripe of the same instance %s: rc=%d, %s", a->op->name, when, rc, rc ? "failed" : "wrong bytes");
+    if (rc == 0) liberasurecode_decode_cleanup(a->L->desc, out);
+}
 
 /* child: one operation on the live instance with its nth library allocation failing */
 static int oom_child_op(void *v)
 {
     oomarg_t *a = v; live_t *L = a->L; int ex, fl = 0;
+    if (a->small) oom_small_decode(a, "before the faulted call");
     qp_t q; q_begin(&q);
     ledger_fail_arm(a->nth); int rc = oom_do(L, a->op, &ex); long fired = ledger_fail_disarm();
     mon_child_phase = 1;                     /* the injected call is over: from here on no fault is excusable */
@@ -905,6 +919,7 @@ static int oom_child_op(void *v)
     if (a->c->be == EC_BACKEND_NULL) ex = 1;
     if (rc2 != a->rc0 || !ex) mon_viol("C16", "oom-next-call-differs", "%s after a call that hit an allocation failure: rc=%d (normally %d) exact=%d", a->op->name, rc2, a->rc0, ex);
     q_zero(&q, "C16", "follow-up call");
+    if (a->small) { oom_small_decode(a, "after the faulted call"); rc2 = oom_do(L, a->op, &ex); if (rc2 != a->rc0 || !ex) mon_viol("C16", "oom-next-call-differs", "%s, second follow-up after a smaller stripe: rc=%d exact=%d", a->op->name, rc2, ex); q_zero(&q, "C16", "second follow-up call"); }
     /* and the instance can be destroyed with everything returned */
     qp_t q2; q_begin(&q2);
     int d = L->desc; L->desc = -1;
@@ -1036,6 +1051,22 @@ static void run_oom(void)
         if (tol >= 2) { ops[no++] = (oop_t){ 1, d01, 0, 1, 0, "decode-2data-misaligned" }; ops[no++] = (oop_t){ 1, d0 | p0, 0, 0, 1, "decode-data+parity-forced" };
                         ops[no++] = (oop_t){ 2, d0 | p0, k, 0, 0, "reconstruct-parity-with-data-lost" }; ops[no++] = (oop_t){ 2, d01, 1, 1, 0, "reconstruct-data-2lost-misaligned" }; }
         if (tol >= 3) { ops[no++] = (oop_t){ 1, 7u, 0, 0, 0, "decode-3data" }; ops[no++] = (oop_t){ 2, 7u, 2, 1, 0, "reconstruct-3lost-misaligned" }; }
+        /* flat-XOR hd=4: a data triple that no parity isolates (the P xor Q branch, which keeps a scratch buffer per call
+         * sized by the stripe); run after the same decode of a much smaller stripe */
+        int pq_op = -1; stripe_t small; uint8_t *small_data = NULL; memset(&small, 0, sizeof small);
+        if (c.be == EC_BACKEND_FLAT_XOR_HD && c.hd == 4 && L.cd.xt) {
+            uint32_t t3 = 0;
+            for (int a1 = 0; a1 < k && !t3; a1++) for (int b1 = a1 + 1; b1 < k && !t3; b1++) for (int c1 = b1 + 1; c1 < k && !t3; c1++) {
+                uint32_t t = 1u << a1 | 1u << b1 | 1u << c1; int iso = 0;
+                for (int p = 0; p < c.m; p++) if (__builtin_popcount(L.cd.xt->parity_bms[p] & t) == 1) iso = 1;
+                if (!iso) t3 = t;
+            }
+            if (t3) {
+                uint64_t sl = (uint64_t)k + 3; small_data = malloc(sl); rng_t r; rng_seed(&r, MO.seed, 4242); rng_fill(&r, small_data, sl);
+                if (stripe_make(&small, L.desc, &c, small_data, sl) == 0) { pq_op = no; ops[no++] = (oop_t){ 1, t3, 0, 0, 0, "decode-3data-PxorQ-after-smaller-stripe" }; ops[no++] = (oop_t){ 1, t3, 0, 1, 1, "decode-3data-PxorQ-misaligned-forced-after-smaller-stripe" }; }
+                ledger_refresh();
+            }
+        }
         if (k >= 2) ops[no++] = (oop_t){ 1, ((1u << n) - 1) & ~(1u << (n - 1)), 0, 0, 0, "decode-too-few" };   /* only the last parity present */
         ops[no++] = (oop_t){ 3, 0, 0, 0, 0, "fragments_needed" };
         ops[no++] = (oop_t){ 4, 0, 0, 1, 0, "metadata+validation" };
@@ -1048,6 +1079,7 @@ static void run_oom(void)
             for (long nth = 1; nth <= A; nth++) {
                 if (!mon_case("%s|oom|%s|alloc#%ld", ck, ops[oi].name, nth)) continue;
                 oomarg_t a = { &L, &ops[oi], nth, rc0, &c, len }; mon_child_t ch;
+                if (pq_op >= 0 && (oi == pq_op || oi == pq_op + 1)) { a.small = &small; a.small_data = small_data; }
                 if (mon_fork_run(oom_child_op, &a, &ch) != 0) mon_logf("HARNESS fork failed");
                 else oom_account(&ch, ops[oi].name, nth);
                 mon_distinct("nontrivial", mon_hash_u64((uint64_t)nth * 64 + (uint64_t)oi, mon_hash_str(ck, 162)));
@@ -1055,6 +1087,7 @@ static void run_oom(void)
                 mon_end();
             }
         }
+        if (small_data) { stripe_free(&small); free(small_data); }
         live_close(&L);
     }
 }
@@ -1063,11 +1096,11 @@ static void run_oom(void)
 /* C14: a create that fails half-way (allocation failure at every allocation site of create, injected through the ledger's
  * failpoint) while one or two instances of the same backend are alive: "a failed create leaves no instance behind" and
  * "operations on one instance never change the behaviour of another", incl. the shared GF tables / plugin handle */
-static void run_registry_oomcreate(void)
+static void run_registry_oomcreate(const char *prop)
 {
     ledger_refresh();
     if (!ledger_available()) { mon_logf("HARNESS oomcreate mode needs the ledger build"); return; }
-    OOM_PROP = "C14";
+    OOM_PROP = prop;
     static const cfg_t pool[] = { { EC_BACKEND_LIBERASURECODE_RS_VAND, 4, 2, 2, 0, CHKSUM_CRC32 }, { EC_BACKEND_LIBERASURECODE_RS_VAND, 10, 4, 4, 0, CHKSUM_NONE }, { EC_BACKEND_FLAT_XOR_HD, 10, 5, 3, 0, CHKSUM_CRC32 },
                                   { EC_BACKEND_ISA_L_RS_VAND, 4, 2, 2, 0, CHKSUM_CRC32 }, { EC_BACKEND_ISA_L_RS_CAUCHY, 5, 3, 3, 0, CHKSUM_NONE }, { EC_BACKEND_NULL, 4, 2, 2, 0, CHKSUM_NONE }, { EC_BACKEND_FLAT_XOR_HD, 6, 6, 4, 0, CHKSUM_NONE } };
     { cfg_t c = pool[0]; live_t L; if (live_open(&L, &c, 10, 1) == 0) live_close(&L); if (isal_ok) { cfg_t c2 = pool[3]; if (live_open(&L, &c2, 10, 1) == 0) live_close(&L); } ledger_refresh(); }
@@ -1368,7 +1401,7 @@ int main(int argc, char **argv)
     mon_count0("shss_standin_plugin_available", shss_ok);
     mon_count0("ledger_available", ledger_available());
     if (!strcmp(PROP, "C13")) run_invalid();
-    else if (!strcmp(PROP, "C14") && !strcmp(MO.mode, "oomcreate")) run_registry_oomcreate();
+    else if ((!strcmp(PROP, "C14") || !strcmp(PROP, "C17")) && !strcmp(MO.mode, "oomcreate")) run_registry_oomcreate(PROP);
     else if (!strcmp(PROP, "C14")) run_registry();
     else if (!strcmp(PROP, "C16") && !strcmp(MO.mode, "oom")) run_oom();
     else if (!strcmp(PROP, "C16")) run_leaks();
